@@ -63,6 +63,7 @@ func (c *stepCtx) stepScale(st map[string]interface{}) string {
 	for _, cf := range counts {
 		cnt := int(cf.(float64))
 		in := buildScaled(st, cnt)
+		runtime.GC() // every size starts from a collected heap
 		best := int64(-1)
 		var alloc uint64
 		out, n := "ok", 0
